@@ -84,7 +84,9 @@ def check(ctx):
     for sw in ["SwD4", "SwD5", "SwD6"]:
         m1.caught(sw, "C10_quick.cfg")
     traces = anngen.run(ctx.seed, ctx.pick(360, 6000), ctx.pick(7, 10), INSTS, list("ABCDEF"), tag="c10")
-    bad, ms = judge(ctx, "Mon_C10", traces + scale_traces() + failed_send_traces(), "announcer histories", anngen.payload)
+    # an instance constructed with a Timings object of its own (another ANNOUNCE_TTL than the stack's)
+    own = anngen.run(ctx.seed, ctx.pick(60, 600), ctx.pick(7, 10), ["I1", "I7"], list("ABCF"), tag="c10o")
+    bad, ms = judge(ctx, "Mon_C10", traces + own + scale_traces() + failed_send_traces() + anngen.raising_listener_family(), "announcer histories", anngen.payload)
     sim = anngen.spec_to_code_ann(ctx, "Mon_C10", "[C10_A EXCEPT !.randVals = {0}]", "C10_Inputs", "A", ["I1"], ["I1"], ctx.pick(25, 400))
     probes = simple_service_probe(ctx)
     acc, total = anngen.conform_by_variant(ctx, traces, ctx.pick(120, 1200))
